@@ -45,6 +45,11 @@ def context_programs(tier):
     out.append(('switch-true-false', doc({'tag': 'p', 'interp_switch': 'false', 'children': [
         R('x1'), {'tag': 'i', 'interp_switch': 'true', 'children': [R('x2'), {'tag': 'b', 'interp_switch': 'off',
                                                                                   'children': [R('x3')]}]}]}), []))
+    # a macro defined inside a subtree whose interpolation is switched off stays switched off (rendered in place)
+    mac = {'tag': 'section', 'define_macro': 'm', 'children': [R('m1'), {'comment': [R('mc')], 'kind': ''}, {'cdata': [R('md')]},
+                                                              {'tag': 'i', 'interp_switch': 'on', 'children': [R('m2')]}]}
+    out.append(('macro-inside-switched-off-subtree', doc({'tag': 'p', 'interp_switch': 'off', 'children': [R('o1'), mac, R('o2')]},
+                                                         R('after')), []))
     out.append(('comment-option-off', doc({'comment': ['a', R('c'), 'b'], 'kind': ''}, R('t')),
                 [], {'enable_comment_interpolation': False}))
     # entities in the expression text are decoded before evaluation (text and attribute)
